@@ -300,7 +300,7 @@ func c14Decode(entry int, data []byte, tail error, tm map[string]reflect.Type, n
 		res.readsAfter = rd.ReadsAfter
 	}
 	if clock.exceeded && res.class == "" {
-		site := callerSite()
+		site := clock.exSite
 		res.class = "c14/runaway"
 		res.key = siteFunc(site)
 		res.detail = fmt.Sprintf("more than %d library statements executed for %d input bytes (budget = 10 x the largest ratio on undamaged streams, %.1f steps/byte); last statement at %s",
